@@ -21,7 +21,7 @@ exactly when required and leave a deeply equal destination.
 from .. import vf
 from . import bindcommon
 
-FAMS = ("bounds", "leaf", "mapkeys", "bigst", "rec", "deepst", "wrap1", "st1l", "st1w", "st2", "emb", "wrap2")
+FAMS = ("bounds", "ifptr", "leaf", "mapkeys", "bigst", "rec", "deepst", "wrap1", "st1l", "st1w", "st2", "emb", "wrap2")
 
 
 def check(ctx):
